@@ -627,6 +627,11 @@ def commentdoc(text):
     commentlines = []
     for line in text.splitlines():
         alternating_words_ws = list(filter(None, WHITESPACE_PATTERN_TEXT.split(line)))
+        if not alternating_words_ws:
+            # An empty line in the comment text.
+            commentlines.append('#')
+            continue
+
         starts_with_whitespace = bool(
             WHITESPACE_PATTERN_TEXT.match(alternating_words_ws[0])
         )
